@@ -115,6 +115,10 @@ def rand_case(rng, max_o, max_s, max_f, chain=0.25, clade=0.3):
             if R.coherent(c2):
                 c = c2
     case = {"S": S, "O": O, "costs": c}
+    if rng.random() < 0.4:    # family names of different lengths / cases (the model knows families as numbers only)
+        case["fnames"] = rng.choice([1, 2])
+    if rng.random() < 0.3:    # trees decorated with branch lengths / supports
+        case["dist"] = rng.randrange(1 << 30)
     if rng.random() < 0.25:   # same input object solved before under other costs (see recon.primed)
         case["prime"] = R.rand_costs(rng, coherent_only=False) if rng.random() < 0.6 else "topology"
     return case
@@ -138,7 +142,7 @@ def impl(case):
         gains = M._compute_gain_sets(B.input)
         lcas = M._compute_lca_sets(B.input, gains)
         nodes = list(B.otree.traverse("preorder"))
-        out["sets"] = [[sorted(R.fam_id(f) for f in lcas[n]), sorted(R.fam_id(f) for f in gains[n])] for n in nodes]
+        out["sets"] = [[sorted(R.fam_id(f, B.fam_scheme) for f in lcas[n]), sorted(R.fam_id(f, B.fam_scheme) for f in gains[n])] for n in nodes]
         t = M._compute_uspfs_table(B.input, lcas, lambda species, _: species.traverse("postorder"), RP.ALL)
         snodes = [B.snode[p] for p in R.shape_paths(case["S"])]
         K = M.SyntenyAssignment
